@@ -11,6 +11,8 @@ stdin: JSON spec
   kill_at_commit  : k   -> os._exit(9) just BEFORE the k-th SQLAlchemy Session.commit
   kill_after_commit : k -> ... just AFTER it
   port      : fixed port to listen on (needed for resume runs: same URLs)
+  bind_ip   : loopback address to listen on and to resolve every host name to (default 127.0.0.1); with a fixed port and a
+              per-run address, concurrent runs of one site see the same URL strings
 stdout: one JSON line {exit_code, port, commits}
 """
 import json
@@ -83,7 +85,8 @@ class Server(socketserver.ThreadingTCPServer):
     allow_reuse_address = True
 
 
-srv = Server(('127.0.0.1', spec.get('port') or 0), Handler)
+BIND = spec.get('bind_ip') or '127.0.0.1'
+srv = Server((BIND, spec.get('port') or 0), Handler)
 PORT = srv.server_address[1]
 threading.Thread(target=srv.serve_forever, daemon=True).start()
 
@@ -94,7 +97,7 @@ compat.patch_sqlalchemy()
 
 @compat.coroutine
 def _resolve(self, host):
-    return wdns.ResolveResult([wdns.AddressInfo('127.0.0.1', socket.AF_INET, None, None)])
+    return wdns.ResolveResult([wdns.AddressInfo(BIND, socket.AF_INET, None, None)])
     yield  # pragma: no cover
 
 
